@@ -54,18 +54,27 @@ struct PolyDom : CellSpace<PolyDom> {
         {"point(0,0)", {GN('p', {0, 0})}, false},
         {"segment(0,0)-(3,0)", {GN('p', {0, 0}), GN('p', {3, 0})}, false},
         {"square[0,1]^2", {GN('p', {0, 0}), GN('p', {1, 0}), GN('p', {0, 1}), GN('p', {1, 1})}, false},
+        // "circumscribed polygon through all the vertices, sharing no facet": joins in which the newer polyhedron touches the older one
+        // exactly at its vertices (square S(1) -> diamond D(2) -> square S(2) -> D(4), triangle -> hexagon).  H79 then drops every
+        // constraint and the first BHRZ03 heuristic ("combining constraints") produces a candidate whose certificate does not decrease:
+        // the only situation in which its certificate test decides.
+        {"square[-1,1]^2", {GN('p', {-1, -1}), GN('p', {1, -1}), GN('p', {-1, 1}), GN('p', {1, 1})}, false},
+        {"diamond|A|+|B|<=2", {GN('p', {2, 0}), GN('p', {0, 2}), GN('p', {-2, 0}), GN('p', {0, -2})}, false},
+        {"square[-2,2]^2", {GN('p', {-2, -2}), GN('p', {2, -2}), GN('p', {-2, 2}), GN('p', {2, 2})}, false},
+        {"triangle(0,0)(4,0)(0,4)", {GN('p', {0, 0}), GN('p', {4, 0}), GN('p', {0, 4})}, false},
+        {"hexagon through (0,0)(4,0)(0,4)", {GN('p', {0, 0}), GN('p', {2, -1}), GN('p', {4, 0}), GN('p', {3, 3}), GN('p', {0, 4}), GN('p', {-1, 2})}, false},
+        {"open-square(0,1)^2", {GN('c', {0, 0}), GN('c', {1, 0}), GN('c', {0, 1}), GN('c', {1, 1}), GN('p', {1, 1}, 2)}, true},
         {"square[2,3]x[1,2]", {GN('p', {2, 1}), GN('p', {3, 1}), GN('p', {2, 2}), GN('p', {3, 2})}, false},
         {"point(-1,3)", {GN('p', {-1, 3})}, false},
         {"ray(0,0)+(1,1)", {GN('p', {0, 0}), GN('r', {1, 1})}, false},
         {"point(1/2,-2)", {GN('p', {1, -4}, 2)}, false},
         {"line(0,-3)+(1,0)", {GN('p', {0, -3}), GN('l', {1, 0})}, false},
-        {"open-square(0,1)^2", {GN('c', {0, 0}), GN('c', {1, 0}), GN('c', {0, 1}), GN('c', {1, 1}), GN('p', {1, 1}, 2)}, true},
-        {"triangle(0,0)(4,0)(0,4)", {GN('p', {0, 0}), GN('p', {4, 0}), GN('p', {0, 4})}, false},
         {"ray(0,2)+(-1,0)", {GN('p', {0, 2}), GN('r', {-1, 0})}, false},
         {"halfopen-segment[(0,0),(3,0))", {GN('p', {0, 0}), GN('c', {3, 0})}, true},
         {"segment(1,1)-(2,4)", {GN('p', {1, 1}), GN('p', {2, 4})}, false},
         {"halfplane A+B<=-2", {GN('p', {-1, -1}), GN('l', {1, -1}), GN('r', {-1, -1})}, false},
         {"open-halfplane A>3", {GN('c', {3, 0}), GN('p', {4, 0}), GN('l', {0, 1}), GN('r', {1, 0})}, true},
+        {"diamond|A|+|B|<=4", {GN('p', {4, 0}), GN('p', {0, 4}), GN('p', {-4, 0}), GN('p', {0, -4})}, false},
         {"point(5,5)", {GN('p', {5, 5})}, false},
       };
     } else {
@@ -221,7 +230,7 @@ int c08_poly_main(int argc, char** argv) {
   std::string topo = ARGS.opt("--topology", "both");
   std::string dims = ARGS.opt("--dims", "1,2");
   int depth = atoi(ARGS.opt("--depth", "12").c_str());
-  int menu_limit = atoi(ARGS.opt("--menu", ARGS.thorough() ? "13" : "10").c_str());
+  int menu_limit = atoi(ARGS.opt("--menu", ARGS.thorough() ? "18" : "13").c_str());
   std::string repmode = ARGS.opt("--reps", ARGS.thorough() ? "full" : "star");
 
   std::vector<std::unique_ptr<PolyDom> > doms;
